@@ -44,7 +44,8 @@ def source(case):
     src += target_src(case["kind"], ta)
     src += (f"#[typeshare]\npub struct Refs<P> {{\n    pub r_field: {t},\n    pub r_vec: Vec<{t}>,\n    pub r_opt: Option<{t}>,\n"
             f"    pub r_mapv: HashMap<String, {t}>,\n    pub r_mapk: HashMap<{t}, String>,\n    pub r_array: [{t}; 2],\n"
-            f"    pub r_garg: Gen<{t}>,\n    pub r_nested: Vec<Option<HashMap<String, Gen<{t}>>>>,\n    pub r_param: Vec<P>,\n    pub r_second: Second,\n}}\n")
+            f"    pub r_garg: Gen<{t}>,\n    pub r_nested: Vec<Option<HashMap<String, Gen<{t}>>>>,\n    pub r_param: Vec<P>,\n    pub r_second: Second,\n"
+            + ("    pub r_tsec: Target<Second>,\n    pub r_tsecv: Vec<Target<Vec<Second>>>,\n" if case["kind"] == "generic_struct" else "") + "}\n")
     src += f"#[typeshare]\npub type RAlias = {t};\n"
     src += f"#[typeshare]\npub type RAliasVec = Vec<{t}>;\n"
     src += f'#[typeshare]\n#[serde(tag = "type", content = "content")]\npub enum RHost {{ Pay({t}), PayVec(Vec<{t}>), Sv {{ f: {t}, g: Option<{t}> }}, U }}\n'
@@ -96,6 +97,12 @@ def sites(lang, obs, case, prefix):
                 out.append(("param", target_leaf(m["ty"], {"X"}), None))
             elif m["key"] == "r_second":
                 out.append(("second", (leaves(m["ty"], []) or [None])[0], None))
+            elif m["key"] in ("r_tsec", "r_tsecv"):
+                # the (possibly renamed) generic target applied to the (possibly renamed) second type: both names are judged
+                ls = leaves(m["ty"], [])
+                if len(ls) >= 2:
+                    out.append(("garg_host" + m["key"][6:], ls[0], None))
+                    out.append(("second_as_arg_of_target" + m["key"][6:], ls[1], None))
             elif m["key"].startswith("r_"):
                 out.append((m["key"][2:], target_leaf(m["ty"], others), None))
     for an, site in (("RAlias", "alias"), ("RAliasVec", "alias_vec")):
@@ -169,7 +176,7 @@ def run_cases(chk, cases):
                     if ref is None:
                         continue
                     ev = {"lang": lang, "site": site, "ref": ref, "defs": defs, "prefix": prefix, "param": "P",
-                          "target": c["target"] if site != "second" else c["second"]}
+                          "target": c["target"] if not site.startswith("second") else c["second"]}
                     if tk == "host":
                         ev["target"] = {"ident": "RHost", "rename": ""}
                     events.append(ev)
@@ -206,7 +213,7 @@ def run(chk):
         # when the DEFINITION is what is off (absent under the required name) every site shows it: one signature per item kind
         site_dim = site if defined else "anysite"
         where = lang + ("+folder" if case.get("mode") == "folder" else "") + (":" + case["elsewhere"] if case.get("elsewhere", "none") != "none" else "")
-        chk.mismatch(f"C09/{where}/{case['kind'] if site not in ('second',) else 'struct'}/{site_dim}/{'renamed' if e['target'].get('rename') else 'plain'}/"
+        chk.mismatch(f"C09/{where}/{case['kind'] if not site.startswith('second') else 'struct'}/{site_dim}/{'renamed' if e['target'].get('rename') else 'plain'}/"
                      f"{'prefix' if e['prefix'] else 'noprefix'}/ref={form}/def={'present' if defined else 'absent'}",
                      f"{lang}: {site} reference to {e['target']} is spelled `{e['ref']}`, definition name required `{exp}`; definitions: {e['defs']}",
                      {"case": case, "lang": lang, "site": site}, exp, e["ref"])
